@@ -60,6 +60,7 @@ pub fn configs(tier: Tier) -> Vec<Box<dyn Config>> {
         v.push(tab(Plan::Cluster(2), if q { 4 } else { 6 }, if q { 5 } else { 8 }, vec![], true, tier, ""));
         v.push(tab(Plan::Adv(0), 4, 5, vec![], true, tier, ""));
     }
+    v.push(Box::new(super::c02::ZstTables { tier }));
     for plan in [Plan::Zero, Plan::Tail, Plan::Max] {
         v.push(seeded(plan, true, 1, tier));
         v.push(seeded(plan, false, if q { 2 } else { 3 }, tier));
